@@ -6,6 +6,7 @@ R3  constraint row, bounds, normalisation; element-density and neutrality scalin
 R4  exhaustive unrolling Z = 1..18 x {no donor, donor}: tridiagonal balance matrix, columns sum to zero
 """
 import ast
+import re
 
 from ..program import Program, dotted, norm
 from ..flow import guards_of, facts, stores
@@ -135,6 +136,10 @@ class Deps:
 def check(run):
     prog = Program()
     mi = prog.load(FILE)
+    # the private functions the rules are anchored in stay calls; any *other* private helper (code moved out of them) is read where it is called
+    ANCHORS = ('_parameters_to_numpy', '_assign_donor_density', '_fractional_abundance_point', '_from_element_density_point',
+               '_match_element_density_point', '_fractional_abundance', '_from_elementdensity', '_match_plasma_neutrality')
+    prog.normalise_module(mi, keep=ANCHORS, propagate=False)
     run.use_file(FILE)
     funcs = mi.functions
     run.functions = len(funcs)
@@ -205,12 +210,12 @@ def _r1b(run, mi):
         ps = set(params_of(fn))
         if 'tcx_donor' not in ps:
             continue
-        loads = [st for t, v, st in stores(fn) if isinstance(t, ast.Name) and t.id == 'coef_tcx' and isinstance(v, ast.Call)
-                 and dotted(v.func) == 'get_rates_tcx']
+        # whatever the local is called (a helper that resolves the rate sets is expanded with renamed locals)
+        loads = [st for t, v, st in stores(fn) if isinstance(t, ast.Name) and isinstance(v, ast.Call) and dotted(v.func) == 'get_rates_tcx']
         for st in loads:
             run.subject('C09-R1b')
             g = guards_of(fn, st) or []
-            f = facts(g)
+            f = {(re.sub(r'^__h\d+_', '', a[0]),) + tuple(a[1:]) for a in facts(g)}
             extra = sorted(a for a in f if not (a[1] in ('is', 'is not') and a[0] in ('tcx_donor', 'coef_tcx') and a[2] == 'None'))
             # un-decomposed guards (e.g. a negated conjunction) also count as extra conditions
             if ('tcx_donor', 'is not', 'None') in f and not extra:
